@@ -487,7 +487,7 @@ func (e *Env) addrOf(x Expr) (string, types.Type) {
 			}
 		}
 		// nested lvalue
-		if _, isSel := x.X.(*Sel); isSel {
+		if _, isIdent := x.X.(*Ident); !isIdent {
 			// if the inner expression is a pointer value, use it
 			if v := e.tryEval(x.X); v != nil && v.T != nil {
 				if pt, ok := v.T.Underlying().(*types.Pointer); ok {
@@ -615,6 +615,8 @@ func (e *Env) evalCall(x *Call) *Val {
 		}
 		t := tr.resolveType(sl.V)
 		return mkVal(ifPart(arg(0), 1), "Int", t)
+	case "obase":
+		return mkVal("(obase "+arg(0).E()+")", "Int", types.Typ[types.UnsafePointer])
 	case "payload":
 		// payload(ifaceValue): the pointer held by an interface value (dynamic type is some pointer type)
 		return mkVal(ifPart(arg(0), 1), "Int", types.Typ[types.UnsafePointer])
